@@ -126,6 +126,20 @@ def run(ctx):
             if not np.all(r_ <= RTOL):
                 i = int(np.flatnonzero(~(r_ <= RTOL))[0])
                 ctx.violation("interp", f"table v{version} [batch with {lname}]: P_exit(logE={le_[i]!r}, beta={bl_[i]!r}) = {g_[i]!r}, log-bilinear model gives {w_[i]!r} ({int((~(r_ <= RTOL)).sum())} of {nl} points)", {"version": version, "layout": lname, "loge": float(le_[i]).hex(), "beta": float(bl_[i]).hex()})
+        for nbig in (65536, 65537, 131072):
+            bb_ = np.resize(beta, nbig)
+            ll_ = np.resize(loge, nbig)
+            try:
+                gb_ = call(bb_, ll_)
+            except Exception as e:
+                ctx.exception("raises", f"table v{version}: in-table batch of {nbig} raised", e, {"version": version, "size": nbig})
+                continue
+            ctx.count("layout", nbig)
+            wb_ = np.resize(got, nbig)
+            if gb_.shape != (nbig,) or gb_.tobytes() != wb_.tobytes():
+                d_ = np.flatnonzero(gb_ != wb_) if gb_.shape == (nbig,) else np.zeros(1, int)
+                i = int(d_[0]) if d_.size else 0
+                ctx.violation("interp", f"table v{version}: in a batch of {nbig} events P_exit(logE={ll_[i]!r}, beta={bb_[i]!r}) = {gb_[i] if gb_.shape == (nbig,) else gb_.shape!r}; the same point in the batch of {n} gave {wb_[i]!r} ({d_.size} events differ)", {"version": version, "layout": f"batch of {nbig}", "loge": float(ll_[i]).hex(), "beta": float(bb_[i]).hex()})
         for i in range(0, min(n, 400), 7):
             try:
                 g1 = call(beta[i : i + 1], loge[i : i + 1])
